@@ -55,6 +55,10 @@ def replay(case):
         f = [x for x in f if x[3].get('annots') == case.get('annots')] or f
     if f:
         return True, '; '.join(x[1] for x in f)
+    if case.get('reject'):
+        return False, f'{name} (not a macro of the documented grammar) is refused by expand_macro'
+    if 'arity' in case:
+        return False, f'{name} with {case["arity"]} code argument(s) is refused by expand_macro'
     try:
         return False, f'{name}: expansion {mac.expand_macro(prim=name, annots=case.get("annots") or [], args=[[{"prim": "SOME"}]] * M.classify(name)[2])} has the documented meaning'
     except Exception as e:  # noqa
